@@ -24,7 +24,13 @@ def generate(rng, tier, shard, nshards):
             g = fam.ensure_language(g, rng)
         G, _ = cfg_proj(g)
         gfeat = fam.feature_key(g)
-        T = aops.rand_fst(rng, srn, nS=rng.choice([1, 2, 2, 3]), narcs=rng.choice([2, 4, 5]), acyclic=exact)
+        kind = i % 4
+        if kind == 1:      # pure insertion: epsilon only on the input tape
+            T = aops.rand_fst(rng, srn, nS=rng.choice([1, 2, 3]), narcs=rng.choice([3, 5]), ins=("a", "b", "", ""), outs=("a", "b"), acyclic=exact)
+        elif kind == 2:    # pure deletion: epsilon only on the output tape
+            T = aops.rand_fst(rng, srn, nS=rng.choice([1, 2, 3]), narcs=rng.choice([3, 5]), ins=("a", "b"), outs=("a", "b", "", ""), acyclic=exact)
+        else:
+            T = aops.rand_fst(rng, srn, nS=rng.choice([1, 2, 2, 3]), narcs=rng.choice([2, 4, 5]), acyclic=exact)
         feat = "+".join(x for x in ["epsin" if any(r[1] == "" for r in T["arcs"]) else "",
                                     "delete" if any(r[1] != "" and r[2] == "" for r in T["arcs"]) else "",
                                     "epseps" if any(r[1] == r[2] == "" for r in T["arcs"]) else "",
